@@ -401,9 +401,21 @@ type rctx struct {
 	dataOff int
 	dataVar string
 	params  map[string][]string // Route method -> parameter names (gen.Core)
+	// buffer lifetime: set once a `lib.ReleaseBuffer(buf)` that falls through has been passed;
+	// header reads after that point are recorded (the buffer is back in the pool by then)
+	released bool
+	late     []string
 }
 
 func (r *rctx) findReads(x ast.Node, dest string, mask int) {
+	before := len(r.k.reads)
+	defer func() {
+		if r.released {
+			for _, f := range r.k.reads[before:] {
+				r.late = append(r.late, fmt.Sprintf("%s@%d", r.k.name, f.off))
+			}
+		}
+	}()
 	ast.Inspect(x, func(n ast.Node) bool {
 		switch v := n.(type) {
 		case *ast.BinaryExpr:
@@ -534,7 +546,11 @@ func (r *rctx) stmt(s ast.Stmt) {
 			return
 		}
 		// other conditions (err != nil, important == false, cache look-ups): bodies contain no header reads
-		// except the important-delivery ack, which is a plain statement after them
+		// except the important-delivery ack, which is a plain statement after them.
+		// A body that releases the buffer and falls through ends the buffer's life for what follows.
+		if releasesBuf(v.Body) && !endsInJump(v.Body) {
+			r.released = true
+		}
 		return
 	case *ast.SwitchStmt:
 		if v.Tag != nil {
@@ -582,9 +598,38 @@ func (r *rctx) stmt(s ast.Stmt) {
 		}
 	case *ast.ExprStmt:
 		if c, ok := v.X.(*ast.CallExpr); ok {
+			if pstr(c.Fun) == "lib.ReleaseBuffer" && len(c.Args) == 1 && pstr(c.Args[0]) == "buf" {
+				r.released = true
+			}
 			r.call(c)
 		}
 	}
+}
+
+func releasesBuf(b *ast.BlockStmt) bool {
+	found := false
+	ast.Inspect(b, func(n ast.Node) bool {
+		if c, ok := n.(*ast.CallExpr); ok && pstr(c.Fun) == "lib.ReleaseBuffer" && len(c.Args) == 1 && pstr(c.Args[0]) == "buf" {
+			found = true
+		}
+		return true
+	})
+	return found
+}
+
+func endsInJump(b *ast.BlockStmt) bool {
+	if len(b.List) == 0 {
+		return false
+	}
+	switch s := b.List[len(b.List)-1].(type) {
+	case *ast.BranchStmt:
+		return true
+	case *ast.ReturnStmt:
+		return true
+	default:
+		_ = s
+	}
+	return false
 }
 
 func (r *rctx) call(c *ast.CallExpr) {
@@ -689,6 +734,7 @@ func genProto() (string, error) {
 
 	kinds := map[int]*pKind{}
 	var order []int
+	var lateReads []string
 	readMin, readMaxCmp := 0, false
 	zPre, zType, zCmp, sendMax, zSkip := 0, 0, false, false, 0
 	var recvSwitch *ast.SwitchStmt
@@ -817,6 +863,7 @@ func genProto() (string, error) {
 			for i := range k.reads {
 				k.reads[i].name = canonRead(r.resolve(k.reads[i].name), k.reads[i].width)
 			}
+			lateReads = append(lateReads, r.late...)
 			k.recvFound = true
 		}
 	}
@@ -864,6 +911,11 @@ func genProto() (string, error) {
 	}
 	fmt.Fprintf(&sb, "/-- SendResponseError: `switch err` → code byte (\"default\" = any other error: code, then the EDF-encoded error) -/\ndef errCodeW : List (String × Nat) := [%s]\n", strings.Join(wl, ", "))
 	fmt.Fprintf(&sb, "/-- receive case MessageResponseError: code byte → error (\"decode\" = EDF-decode the error that follows, \"nil\" = success) -/\ndef errCodeR : List (Nat × String) := [%s]\n\n", strings.Join(rl, ", "))
+	var lq []string
+	for _, l := range lateReads {
+		lq = append(lq, fmt.Sprintf("%q", l))
+	}
+	fmt.Fprintf(&sb, "/-- header reads of a receive case that come after a `lib.ReleaseBuffer(buf)` on the same path (kind@offset) -/\ndef readsAfterRelease : List String := [%s]\n\n", strings.Join(lq, ", "))
 	sb.WriteString(protoStructs)
 	sb.WriteString("def kinds : List Kind := [\n")
 	for i, t := range order {
@@ -970,6 +1022,7 @@ def sendChecksMax : Bool := false
 def requestChanCap : Nat := 0
 def errCodeW : List (String × Nat) := []
 def errCodeR : List (Nat × String) := []
+def readsAfterRelease : List String := ["anchor not found"]
 ` + protoStructs + `def kinds : List Kind := []
 end ErgoVerif.Generated.Proto
 `
